@@ -153,6 +153,20 @@ func (g *G) lists(t *ty.Ty, pool []*ty.Val) []listT {
 			add("dups", 0, a, b, a, c, b)
 		}
 	}
+	// slice-typed elements: orders in which lexicographic and length-first comparison disagree
+	if g.env.Under(t).K == ty.Slice {
+		var short1, long2 *ty.Val
+		// the pair ([e1], [e0 e0]): lexicographically [e0 e0] < [e1], length-first [e1] < [e0 e0]
+		if in := g.vg.Pool(g.env.Under(t).Elem); len(in) > 1 {
+			short1, long2 = slice([]*ty.Val{in[1]}, 0), slice([]*ty.Val{in[0], in[0]}, 0)
+		}
+		if short1 != nil && long2 != nil {
+			add("lex-vs-len", 0, short1, long2)
+			add("lex-vs-len", 0, long2, short1)
+			add("lex-vs-len", 1, long2, nilv(), short1, slice(nil, 0))
+			add("lex-vs-len", 0, slice(nil, 0), long2, nilv(), short1, long2)
+		}
+	}
 	// Equal-but-not-identical elements: a value followed by its identity variants
 	for i := 0; i < len(pool) && i < 3; i++ {
 		vs := g.vg.EqVariants(pool[i])
@@ -263,6 +277,38 @@ func kindName(k ty.Kind) string {
 	return [...]string{"basic", "named", "ptr", "slice", "array", "map", "struct", "chan", "func", "iface"}[k]
 }
 
+// elemPool is the value pool of an element type: the generic boundary-biased pool plus, for
+// slice-typed elements, inner slices of different lengths whose lexicographic order differs from the
+// derived (nil first, shorter first, then element-wise) order, and nil / empty inner slices.
+func (g *G) elemPool(t *ty.Ty) []*ty.Val {
+	pool := append([]*ty.Val(nil), g.vg.Pool(t)...)
+	u := g.env.Under(t)
+	if u.K != ty.Slice {
+		return pool
+	}
+	in := g.vg.Pool(u.Elem)
+	if len(in) < 2 {
+		return pool
+	}
+	e0, e1 := in[0], in[1]
+	extras := []*ty.Val{nilv(), slice(nil, 0), slice([]*ty.Val{e1}, 0), slice([]*ty.Val{e0, e0}, 0),
+		slice([]*ty.Val{e0, e1}, 1), slice([]*ty.Val{e1, e0, e0}, 0), slice([]*ty.Val{e0, e0, e0}, 0)}
+	if len(in) > 2 {
+		extras = append(extras, slice([]*ty.Val{in[2]}, 0), slice([]*ty.Val{e0, in[2]}, 0))
+	}
+	seen := map[string]bool{}
+	for _, v := range pool {
+		seen[v.Wire()] = true
+	}
+	for _, v := range extras {
+		if !seen[v.Wire()] {
+			seen[v.Wire()] = true
+			pool = append(pool, v)
+		}
+	}
+	return pool
+}
+
 // elemOps emits wrappers, registrations and ops of the per-element-type helpers.
 func (g *G) elemOps(i int, t *ty.Ty) {
 	env := g.env
@@ -272,7 +318,7 @@ func (g *G) elemOps(i int, t *ty.Ty) {
 	qi := g.pkgOf(t)
 	q, qn := g.qs[qi], fmt.Sprintf("q%d", qi)
 	g.stat("elem-head:"+kindName(env.Under(t).K), 1)
-	pool := g.vg.Pool(t)
+	pool := g.elemPool(t)
 	g.stat("elem-pool", len(pool))
 	lists := g.lists(t, pool)
 	g.stat("lists", len(lists))
@@ -438,6 +484,48 @@ func (g *G) elemOps(i int, t *ty.Ty) {
 		// the same inner list twice (aliased)
 		shared := g.inst(lists[len(lists)-1])
 		cases = append(cases, lol(shared, shared))
+		// aliasing-prone inputs: the first inner list has spare capacity for everything that follows …
+		for k := 0; k < 4; k++ {
+			first := g.inst(lists[g.rng.Intn(len(lists))])
+			rest := []*ty.Val{pick(), pick()}
+			if first.K == ty.VNil {
+				first = empty()
+			}
+			first.Spare = len(rest[0].Elems) + len(rest[1].Elems) + g.rng.Intn(2)
+			cases = append(cases, lol(first, rest[0], rest[1]))
+			g.stat("join-first-has-room", 1)
+		}
+		// … and inner lists that are views of ONE backing array (same address id, prefixes of different
+		// length): writing behind the first view would overwrite what a later view still has to deliver
+		buf := make([]*ty.Val, 6)
+		for j := range buf {
+			buf[j] = g.vg.Inst(pool[j%len(pool)])
+		}
+		if len(pool) > 1 {
+			buf[3], buf[4] = g.vg.Inst(pool[1]), g.vg.Inst(pool[0])
+		}
+		view := func(addr, n int) *ty.Val {
+			return &ty.Val{K: ty.VSlice, Addr: addr, Spare: len(buf) - n, Elems: buf[:n]}
+		}
+		other := func(n int) *ty.Val {
+			es := make([]*ty.Val, n)
+			for j := range es {
+				es[j] = g.vg.Inst(pool[(j+1)%len(pool)])
+			}
+			return &ty.Val{K: ty.VSlice, Addr: g.vg.Fresh(), Elems: es}
+		}
+		// (element objects are shared between the views of one op; every op has its own heap)
+		for _, sh := range [][3]int{{1, 2, 3}, {0, 2, 4}, {2, 1, 3}, {1, 0, 5}, {0, 0, 6}, {3, 0, 3}} {
+			addr := g.vg.Fresh()
+			var es []*ty.Val
+			es = append(es, view(addr, sh[0]))
+			if sh[1] > 0 {
+				es = append(es, other(sh[1]))
+			}
+			es = append(es, view(addr, sh[2]))
+			cases = append(cases, lol(es...))
+			g.stat("join-shared-backing-array", 1)
+		}
 		for _, c := range cases {
 			g.stat(fmt.Sprintf("join-outer-len:%d", len(c.Elems)), 1)
 			g.ow.op("join", tn, c.Wire())
@@ -457,7 +545,7 @@ func (g *G) fmapOps(i int, e, r *ty.Ty) {
 	q, qn := g.qs[qi], fmt.Sprintf("q%d", qi)
 	fmt.Fprintf(q, "\nfunc Fmap_%d(f func(%s) %s, l []%s) []%s { return deriveFmap_%d(f, l) }\n", i, ge, gr, ge, gr, i)
 	fmt.Fprintf(g.m, "\trt.Reg(\"fmap\", %q, rt.Fmap(%s.Fmap_%d))\n", tn, qn, i)
-	epool, rpool := g.vg.Pool(e), g.vg.Pool(r)
+	epool, rpool := g.elemPool(e), g.vg.Pool(r)
 	g.stat("fmap-pairs", 1)
 	for _, l := range g.lists(e, epool) {
 		lv := g.inst(l)
@@ -657,13 +745,14 @@ func main() {
 	// element types: basics (incl. bool and complex, which have no <), named basics (incl. a named bool), comparable struct, pointers to structs, slices, a struct
 	// with pointers, a recursive and an imported struct behind pointers
 	elems := []*ty.Ty{b("int"), b("int64"), b("uint8"), b("string"), b("float64"), b("bool"), n(0), n(1), n(2),
-		n(5), p(n(5)), p(n(6)), ty.Sl(b("int")), n(6), p(n(7)), p(n(17)), b("complex128"), n(3)}
+		n(5), p(n(5)), p(n(6)), ty.Sl(b("int")), n(6), p(n(7)), p(n(17)), b("complex128"), n(3),
+		ty.Sl(b("byte")), ty.Sl(b("string")), ty.Ar(2, b("int")), n(22)}
 	keys := []*ty.Ty{b("int"), b("string"), n(0), n(5), ty.Ar(2, b("int")), b("float64")}
 	results := []*ty.Ty{b("int"), b("string"), p(n(5)), ty.Sl(b("int")), n(5), b("bool"), b("float64"), n(1)}
 	cap, maxLen, nRandom := 6, 7, 8
 	if *thorough {
-		elems = append(elems, b("int8"), b("uint64"), b("float32"), b("int32"), ty.Ar(2, b("int")), p(b("int")), ty.Sl(b("string")),
-			ty.M(b("string"), b("int")), n(14), n(10), p(n(8)), n(20), n(16), ty.Sl(p(n(5))), n(11), n(22), ty.Sl(b("byte")))
+		elems = append(elems, b("int8"), b("uint64"), b("float32"), b("int32"), p(b("int")), ty.Sl(b("int8")),
+			ty.M(b("string"), b("int")), n(14), n(10), p(n(8)), n(20), n(16), ty.Sl(p(n(5))), n(11), ty.Sl(ty.Sl(b("byte"))), ty.Ar(2, ty.Sl(b("byte"))))
 		keys = append(keys, n(1), n(2), b("bool"), b("uint8"), n(14), ty.Ar(2, n(5)))
 		results = append(results, p(n(6)), n(0), b("uint8"), ty.M(b("string"), b("int")))
 		cap, maxLen, nRandom = 10, 12, 40
@@ -740,9 +829,22 @@ func main() {
 	if want["fmap"] {
 		// every element type with two result types, every result type at least twice
 		i := 0
+		done := map[string]bool{}
 		for ei, e := range elems {
 			for d := 0; d < 2; d++ {
-				g.fmapOps(i, e, results[(ei*2+d)%len(results)])
+				r := results[(ei*2+d)%len(results)]
+				if k := e.Wire() + ">" + r.Wire(); !done[k] {
+					done[k] = true
+					g.fmapOps(i, e, r)
+					i++
+				}
+			}
+		}
+		// result type = element type: an implementation could (wrongly) write the results in place
+		for _, e := range elems {
+			if k := e.Wire() + ">" + e.Wire(); !done[k] {
+				done[k] = true
+				g.fmapOps(i, e, e)
 				i++
 			}
 		}
